@@ -15,7 +15,7 @@ open Scrapli.Gen.SSHConfig Scrapli.SSHConfig.Spec
 
 theorem gen_is_modelled :
     wildMany = '*' ∧ wildOne = '?' ∧ starKey = Spec.star ∧ searchFn = "search" ∧
-    searchFlags = ["IGNORECASE"] ∧ hashedPrefix = ['|', '1', '|'] ∧ hashSep = '|' ∧ listSep = ',' ∧
+    searchFlags = ["IGNORECASE"] ∧ tieBreak = "first" ∧ hashedPrefix = ['|', '1', '|'] ∧ hashSep = '|' ∧ listSep = ',' ∧
     hashedParts = 4 ∧ hmacDigest = "sha1" ∧ hostAttrs.length = attrDefaults.length ∧
     hostsDefault = [] ∧ (∀ v ∈ attrDefaults, Val.truthy v = false) ∧ hostnameDefault.truthy = false := by
   decide
@@ -29,8 +29,9 @@ theorem meta_excludes_wildcards : '*' ∉ regexMeta ∧ '?' ∉ regexMeta ∧ '.
 
 /-! ## lookup never raises -/
 
-/-- **C16 lookup_total** (every literal escaped): for every file and every name, building the table and
-    looking the name up returns a Host — no KeyError, no re.error, and the `while True` loop of
+/-- **C16 lookup_total** (every literal escaped): for every PARSE RESULT (`parsed`, what `_parse` returns — the text
+    parser itself is outside the model, e.g. a `Port ` line without value made `_parse` raise, finding
+    F14-empty-port-value) and every name, building the table and looking the name up returns a Host — no KeyError, no re.error, and the `while True` loop of
     `_merge_hosts` stops. -/
 theorem lookup_total_full (parsed : List Entry) (name : Str) :
     ∃ r, lookupCfg [] parsed name = .ok r := by
@@ -126,6 +127,11 @@ theorem lookup_only_matching_full_refuted : ¬ OnlyMatching [] := by
     rw [← globMatch_iff, this] at hm
     cases hm
 
+/-- `Host *.lab / User l`, `Host sw1* / Port 5` and the name `sw1.lab` -/
+def exInh : List Entry :=
+  [mkE ['*', '.', 'l', 'a', 'b'] .none (.str ['l']) .none, mkE ['s', 'w', '1', '*'] (.int 5) .none .none]
+def swLab : Str := ['s', 'w', '1', '.', 'l', 'a', 'b']
+
 def aStar : Str := ['a', '*']
 def aQ : Str := ['a', '?']
 
@@ -156,13 +162,10 @@ theorem lookup_only_matching_merge_refuted :
       rw [← globMatch_iff, this] at hm
       cases hm
 
-/-- **C16 lookup_only_matching, partial**: if (a) the looked-up name contains no instance of a Host
-    pattern that does not match it entirely and (b) no pattern of a non-`*` Host line has an instance
-    inside the text of another Host line, then every value returned was set by an entry that names the
-    host (exactly, by a pattern matching the whole name) or by `Host *`.  For every set of unescaped
-    metacharacters (when the lookup returns at all). -/
-theorem lookup_only_matching_partial (mc : List Char) (parsed : List Entry) (name : Str) (r : Entry)
-    (hA : Anchored (allKeys parsed) name) (hN : NoCross (allKeys parsed))
+/-- general form: inheritance across Host lines happens only from lines that are `G`ood, and good lines name the host -/
+theorem lookup_only_matching_of_cross (G : Str → Prop) (mc : List Char) (parsed : List Entry) (name : Str) (r : Entry)
+    (hG : ∀ k, G k → Names k name)
+    (hA : Anchored (allKeys parsed) name) (hN : CrossOnly G (allKeys parsed))
     (hr : lookupCfg mc parsed name = .ok r) :
     (∀ (i : Nat) (v : Val), r.attrs[i]? = some v → v.truthy = true → FromNaming parsed name i v) ∧
     (r.hostname.truthy = true → ∃ e ∈ parsed, e.hostname = r.hostname ∧ Names e.hosts name) ∧
@@ -172,7 +175,7 @@ theorem lookup_only_matching_partial (mc : List Char) (parsed : List Entry) (nam
   | error e => simp [hb, bind, Except.bind] at hr
   | ok d =>
     simp only [hb, bind, Except.bind] at hr
-    obtain ⟨⟨hkeys, hprov⟩, hdk⟩ := build_inv (prov_step (mc := mc) hN) (prov_fileDict parsed) hb
+    obtain ⟨⟨hkeys, hprov⟩, hdk⟩ := build_inv (prov_step (mc := mc) hN) (prov_fileDict G parsed) hb
     have hh : OwnInv (fileDict parsed) d :=
       (build_inv (own_step mc (fileDict parsed)) (fun k e hg => ⟨e, hg, keeps_refl e⟩) hb).1
     obtain ⟨k, hmem, hcase⟩ := lookup_cases hr
@@ -195,12 +198,39 @@ theorem lookup_only_matching_partial (mc : List Char) (parsed : List Entry) (nam
     · intro i v hv ht
       obtain ⟨e0, he0, hv0, hk0⟩ := ha1 i v hv ht
       refine ⟨e0, he0, hv0, ?_⟩
-      rcases hk0 with hk0 | hk0
+      rcases hk0 with hk0 | hk0 | hk0
       · rw [hk0]; exact hnames
       · exact Or.inl (by rw [hk0]; rfl)
+      · exact hG _ hk0
     · intro ht
       obtain ⟨e0, he0, h1, h2⟩ := hn1 ht
       exact ⟨e0, he0, h1, by rw [h2]; exact hnames⟩
+
+/-- **C16 lookup_only_matching, partial**: if (a) the looked-up name contains no instance of a Host
+    pattern that does not match it entirely and (b) no pattern of a non-`*` Host line has an instance
+    inside the text of another Host line, then every value returned was set by an entry that names the
+    host (exactly, by a pattern matching the whole name) or by `Host *`.  For every set of unescaped
+    metacharacters (when the lookup returns at all).  NOTE (b) excludes every pair "specific entry / less specific
+    entry" (`web1*` / `web*`, even `sw1` / `sw10`): under it the only possible donor is `Host *`; this is a statement
+    about PROVENANCE only (see `lookup_eq_spec_anchored_nocross_refuted`, `lookup_only_matching_partial_wide`). -/
+theorem lookup_only_matching_partial (mc : List Char) (parsed : List Entry) (name : Str) (r : Entry)
+    (hA : Anchored (allKeys parsed) name) (hN : NoCross (allKeys parsed))
+    (hr : lookupCfg mc parsed name = .ok r) :
+    (∀ (i : Nat) (v : Val), r.attrs[i]? = some v → v.truthy = true → FromNaming parsed name i v) ∧
+    (r.hostname.truthy = true → ∃ e ∈ parsed, e.hostname = r.hostname ∧ Names e.hosts name) ∧
+    Names r.hosts name :=
+  lookup_only_matching_of_cross (fun _ => False) mc parsed name r (fun _ h => h.elim) hA (crossOnly_of_noCross hN) hr
+
+/-- **the same under the weaker hypothesis `CrossNaming`** (review item 4): Host lines MAY feed one another as long as
+    every feeding line also names the looked-up host — `Host web1*` inheriting from `Host web*` for the name `web17` is
+    inside this domain.  Still provenance only. -/
+theorem lookup_only_matching_partial_wide (mc : List Char) (parsed : List Entry) (name : Str) (r : Entry)
+    (hA : Anchored (allKeys parsed) name) (hN : CrossNaming (allKeys parsed) name)
+    (hr : lookupCfg mc parsed name = .ok r) :
+    (∀ (i : Nat) (v : Val), r.attrs[i]? = some v → v.truthy = true → FromNaming parsed name i v) ∧
+    (r.hostname.truthy = true → ∃ e ∈ parsed, e.hostname = r.hostname ∧ Names e.hosts name) ∧
+    Names r.hosts name :=
+  lookup_only_matching_of_cross (fun k => Names k name) mc parsed name r (fun _ h => h) hA hN hr
 
 /-- the whole statement as an equation with the hand-written specification `Spec.lookup` is false for
     the code (same witness: the specification answers `foobar` from `Host *`) -/
@@ -214,6 +244,111 @@ theorem lookup_eq_spec_full_refuted :
   rw [h2] at h1
   revert h1
   decide
+
+/-- **refuted INSIDE the domain of the partial theorem** (review item 3): `Anchored` and `NoCross` both hold, yet the
+    result differs from the specification — `Host sw1* / Port 5` matches the whole name `sw1.lab` but its pattern has
+    no instance in the TEXT of the selected Host line `*.lab`, so its Port is never inherited (port `none`, the
+    specification says 5).  Under `NoCross` no entry can inherit from another non-`*` entry at all: the partial theorem
+    is a statement about provenance only, the inheritance clause of the property is false there. -/
+theorem lookup_eq_spec_anchored_nocross_refuted :
+    ¬ ∀ (parsed : List Entry) (name : Str) (r : Entry), Anchored (allKeys parsed) name → NoCross (allKeys parsed) →
+      lookupCfg [] parsed name = .ok r → Spec.lookup (fileDict parsed) name = some r := by
+  intro h
+  have ha : Anchored (allKeys exInh) swLab := by rw [← anchoredB_iff]; decide
+  have hn : NoCross (allKeys exInh) := by rw [← noCrossB_iff]; decide
+  have hr : lookupCfg [] exInh swLab = .ok (mkE ['*', '.', 'l', 'a', 'b'] .none (.str ['l']) .none) := by rfl
+  have h1 := h _ _ _ ha hn hr
+  have h2 : Spec.lookup (fileDict exInh) swLab = some (mkE ['*', '.', 'l', 'a', 'b'] (.int 5) (.str ['l']) .none) := by
+    decide
+  rw [h2] at h1
+  revert h1
+  decide
+
+/-! ## the inheritance that always works: what `Host *` sets reaches every answer -/
+
+/-- **C16 lookup_star_fills** (review item 2, the completeness half for `Host *`): if the file's `Host *` block sets
+    option number `i` (to a truthy value), then in EVERY answer that option is set — by the entry itself, by an entry it
+    inherited from, or by `Host *`; it is never left unset.  (Stated as "attribute `i` of the answer, if the answer has an
+    `i`-th attribute at all, is truthy": all `Host` objects carry all HOST_ATTRS.)  Proof: the `while True` loop of
+    `_merge_hosts` can only be left after a pass whose donor was `*`.  A model with `mergeAttrs own _ := own` fails it. -/
+theorem lookup_star_fills (mc : List Char) (parsed : List Entry) (name : Str) (r es : Entry) (i : Nat) (v : Val)
+    (hr : lookupCfg mc parsed name = .ok r) (hs : (fileDict parsed).get? starKey = some es)
+    (hi : es.attrs[i]? = some v) (hv : v.truthy = true) :
+    ∀ w, r.attrs[i]? = some w → w.truthy = true := by
+  unfold lookupCfg at hr
+  cases hb : build mc parsed with
+  | error e => simp [hb, bind, Except.bind] at hr
+  | ok d =>
+    simp only [hb, bind, Except.bind] at hr
+    have hdk := (build_inv (P := fun _ => True) (fun _ _ _ _ _ _ _ _ _ _ _ => trivial) trivial hb).2
+    have h0 : FillInv i v [] (fileDict parsed) := ⟨⟨es, hs, hi⟩, by simp⟩
+    have hfin := foldlM_fills (mc := mc) hv (fileDict parsed).keys [] (fileDict parsed) d h0 hb
+    obtain ⟨k, hmem, _⟩ := lookup_cases hr
+    have hn : d.keys.Nodup := by rw [hdk]; exact nodup_fileDict parsed
+    have hk : k ∈ (fileDict parsed).keys := by rw [← hdk]; exact Dict.mem_keys_of_mem hmem
+    exact hfin.2 k (by simpa using hk) r (get?_of_mem_nodup hn hmem)
+
+/-! ## which wildcard entry is chosen: the first one with the minimal score -/
+
+/-- **C16 lookup_fuzzy_minimal** (review item 1): when no Host line is the name and none lists it, the entry returned
+    is the fallback `*` iff NO pattern of the file is a candidate; otherwise its Host line `k` carries a candidate
+    `(n, k)` whose score `n` (characters captured by the leftmost-greedy match) is minimal among ALL candidates of the
+    file, and every candidate before it in file order scores strictly more.  "Closest by the code's own score, first in
+    file order", for every file and name.  (That this score equals the specification's `captured` for whole-name
+    matches is not proved; the oracle checks it on every run.) -/
+theorem lookup_fuzzy_minimal (mc : List Char) (parsed : List Entry) (name : Str) (r : Entry)
+    (hnk : name ∉ allKeys parsed) (hnl : ∀ e ∈ parsed, name ∉ splitWs e.hosts)
+    (hr : lookupCfg mc parsed name = .ok r) :
+    (hits name (fileDict parsed).keys = [] ∧ r.hosts = starKey) ∨
+    ∃ n, (n, r.hosts) ∈ hits name (fileDict parsed).keys ∧
+      (∀ x ∈ hits name (fileDict parsed).keys, n ≤ x.1) ∧
+      ∃ pre suf, hits name (fileDict parsed).keys = pre ++ (n, r.hosts) :: suf ∧ ∀ x ∈ pre, n < x.1 := by
+  unfold lookupCfg at hr
+  cases hb : build mc parsed with
+  | error e => simp [hb, bind, Except.bind] at hr
+  | ok d =>
+    simp only [hb, bind, Except.bind] at hr
+    obtain ⟨hown, hdk⟩ := build_inv (own_step mc (fileDict parsed))
+      (fun k e hg => ⟨e, hg, keeps_refl e⟩ : OwnInv (fileDict parsed) (fileDict parsed)) hb
+    have hhosts : ∀ k e, d.get? k = some e → e.hosts = k := by
+      intro k e hg
+      obtain ⟨e0, h0, hk, _⟩ := hown k e hg
+      rw [hk, (fileDict_mem parsed k e0 (Dict.get?_some_mem h0)).1]
+    have hg : d.get? name = none := Dict.get?_none_of_not_mem (by
+      rw [hdk]; intro h; exact hnk ((fileDict_keys parsed name).mp h))
+    have hf : d.find? (fun ke => (splitWs ke.1).contains name) = none := by
+      rw [List.find?_eq_none]
+      intro ke hke hc
+      have hc' : name ∈ splitWs ke.1 := by simpa using hc
+      have hk : ke.1 ∈ allKeys parsed :=
+        (fileDict_keys parsed ke.1).mp (by rw [← hdk]; exact Dict.mem_keys_of_mem (v := ke.2) hke)
+      simp only [allKeys, List.mem_cons, List.mem_map] at hk
+      rcases hk with hk | ⟨e, he, hk⟩
+      · rw [hk] at hc'
+        have : splitWs starKey = [starKey] := by decide
+        rw [this] at hc'
+        simp only [List.mem_singleton] at hc'
+        exact hnk (by rw [hc']; simp [allKeys])
+      · rw [← hk] at hc'; exact hnl e he hc'
+    unfold lookup at hr
+    simp only [hg, hf] at hr
+    unfold fuzzy at hr
+    by_cases hbad : anyBad mc d.keys = true
+    · simp [hbad, bind, Except.bind] at hr
+    · simp only [hbad, Bool.false_eq_true, ↓reduceIte, bind, Except.bind] at hr
+      rw [← hdk]
+      cases hm : firstMin (hits name d.keys) with
+      | none =>
+        simp only [hm] at hr
+        exact Or.inl ⟨firstMin_none hm, hhosts _ r (Dict.getE_ok hr)⟩
+      | some m =>
+        simp only [hm] at hr
+        have hk : r.hosts = m.2 := hhosts _ r (Dict.getE_ok hr)
+        obtain ⟨hmin, pre, suf, hl, hpre⟩ := firstMin_spec hm
+        right
+        refine ⟨m.1, ?_, hmin, pre, suf, ?_, hpre⟩
+        · rw [hk]; exact firstMin_mem hm
+        · rw [hk]; exact hl
 
 /-! ## the entry that names the host exactly comes first -/
 
@@ -388,7 +523,10 @@ theorem khHistory_aux (hm : Str → Str → Str → Option Bool) (d : Dict (Str 
     show List.foldl _ (d, acc ++ [khLookup hm d n]) ns = _
     rw [ih]; simp
 
-/-- **C16 lookup_is_stateless (known_hosts)**: on ONE SSHKnownHosts object, after ANY history of lookups,
+/-- **C16 lookup_is_stateless (known_hosts)** — TRUE BY CONSTRUCTION of `khStep` (the step returns the object it was
+    given); its content is the modelling decision justified by `lookup_paths_store_nothing` and checked by the history
+    correspondence; see `known_hosts_lookup_is_stateless_current` for the version tied to the generated data.
+    On ONE SSHKnownHosts object, after ANY history of lookups,
     every answer is what a single lookup of that name on a fresh object returns, and the object is unchanged -/
 theorem known_hosts_lookup_is_stateless (hm : Str → Str → Str → Option Bool) (lines : List KHLine)
     (names : List Str) :
@@ -408,7 +546,8 @@ theorem cfgHistory_aux (mc : List Char) (d : Dict Entry) (names : List Str) :
     show List.foldl _ (d, acc ++ [lookup mc d n]) ns = _
     rw [ih]; simp
 
-/-- **C16 lookup_is_stateless (ssh config)**: the same for ONE SSHConfig object; each answer equals
+/-- **C16 lookup_is_stateless (ssh config)** — true by construction of `cfgStep`, see above and
+    `lookup_is_stateless_current`: the same for ONE SSHConfig object; each answer equals
     `SSHConfig(file).lookup(name)` on a fresh object (`lookupCfg`) -/
 theorem lookup_is_stateless (mc : List Char) (parsed : List Entry) (d : Dict Entry)
     (hb : build mc parsed = .ok d) (names : List Str) :
@@ -419,6 +558,32 @@ theorem lookup_is_stateless (mc : List Char) (parsed : List Entry) (d : Dict Ent
   apply List.map_congr_left
   intro n _
   simp [lookupCfg, hb, bind, Except.bind]
+
+/-- the same, with the step made dependent on the GENERATED store lists (review item 5): with an arbitrary `havoc` for
+    what a storing lookup path would do to the object, the histories on the current tree are still the maps of single
+    lookups — these two theorems (unlike the two above, which hold by construction of `cfgStep` / `khStep`) stop
+    building as soon as the translator finds a store on a lookup path or in base_driver.py -/
+theorem lookup_is_stateless_current (havoc : Dict Entry → Str → Dict Entry) (mc : List Char) (d : Dict Entry)
+    (names : List Str) :
+    cfgHistoryW (cfgLookupWrites ++ driverLookupWrites) havoc mc d names = (d, names.map (lookup mc d)) := by
+  have hw : (cfgLookupWrites ++ driverLookupWrites).isEmpty = true := by decide
+  have : cfgHistoryW (cfgLookupWrites ++ driverLookupWrites) havoc mc d names = cfgHistory mc d names := by
+    unfold cfgHistoryW cfgHistory cfgStepW cfgStep
+    simp only [hw, ↓reduceIte]
+  rw [this]
+  unfold cfgHistory
+  rw [cfgHistory_aux]; simp
+
+theorem known_hosts_lookup_is_stateless_current (havoc : Dict (Str × Str) → Str → Dict (Str × Str))
+    (hm : Str → Str → Str → Option Bool) (d : Dict (Str × Str)) (names : List Str) :
+    khHistoryW khLookupWrites havoc hm d names = (d, names.map (khLookup hm d)) := by
+  have hw : khLookupWrites.isEmpty = true := by decide
+  have : khHistoryW khLookupWrites havoc hm d names = khHistory hm d names := by
+    unfold khHistoryW khHistory khStepW khStep
+    simp only [hw, ↓reduceIte]
+  rw [this]
+  unfold khHistory
+  rw [khHistory_aux]; simp
 
 /-- **ssh_config_factory**: the object handed out for a path already in the cache is the one built the
     first time, the cache is unchanged, and lookups through it agree with lookups on a fresh SSHConfig of
@@ -460,6 +625,27 @@ example : lookupCfg [] exCfg ['s', 'w', '2'] =
 /-- ... where code and specification agree -/
 example : Spec.lookup (fileDict exCfg) ['s', 'w', '2'] =
     some (mkE ['s', 'w', '?'] (.int 1234) (.str ['n', 'o', 't', 'c', 'a', 'r', 'l']) (.str ['k', '9'])) := by decide
+
+/-- `Host web1* / Port`, `Host web* / User`, name `web17`: outside `NoCross` (the text `web1*` is an instance of `web*`),
+    inside `CrossNaming`; the answer inherits the user from `web*` -/
+def exWide : List Entry :=
+  [mkE ['w', 'e', 'b', '1', '*'] (.int 7) .none .none, mkE ['w', 'e', 'b', '*'] .none u1 .none]
+
+example : noCrossB (allKeys exWide) = false ∧ crossNamingB (allKeys exWide) ['w', 'e', 'b', '1', '7'] = true ∧
+    anchoredB (allKeys exWide) ['w', 'e', 'b', '1', '7'] = true := by decide
+
+example : lookupCfg [] exWide ['w', 'e', 'b', '1', '7'] = .ok (mkE ['w', 'e', 'b', '1', '*'] (.int 7) u1 .none) := by rfl
+
+/-- hypotheses of `lookup_star_fills`: `Host *` of `exCfg` sets the identity file (attribute 6), which the selected
+    entry `sw?` leaves unset -/
+example : (fileDict exCfg).get? starKey = some (mkE ['*'] .none (.str ['e', 'l', 's', 'e']) (.str ['k', '9'])) ∧
+    (mkE ['*'] .none (.str ['e', 'l', 's', 'e']) (.str ['k', '9'])).attrs[6]? = some (.str ['k', '9']) ∧
+    (mkE ['s', 'w', '?'] (.int 1234) (.str ['n', 'o', 't', 'c', 'a', 'r', 'l']) .none).attrs[6]? = some .none := by decide
+
+/-- hypotheses of `lookup_fuzzy_minimal` for `sw2`, and what it then pins down: candidates `sw?` (1 character) and
+    `*` (3 characters), in file order -/
+example : ['s', 'w', '2'] ∉ allKeys exCfg ∧ (∀ e ∈ exCfg, ['s', 'w', '2'] ∉ splitWs e.hosts) ∧
+    hits ['s', 'w', '2'] (fileDict exCfg).keys = [(1, ['s', 'w', '?']), (3, ['*'])] := by decide
 
 /-- hypotheses of `lookup_listed_first` / `lookup_exact_first`: `swa` is listed, is not a Host line, and
     `sw?` matches it too (with 1 captured character) -/
